@@ -304,6 +304,8 @@ impl GroupStorage for MdkSqliteStorage {
             // Use a savepoint for atomicity (works both inside/outside an existing transaction).
             conn.execute_batch("SAVEPOINT mdk_replace_group_relays")
                 .map_err(into_group_err)?;
+            #[cfg(mdk_verif)]
+            crate::verif_hooks::tick("relays:in-savepoint");
 
             let result: Result<(), GroupError> = (|| {
                 conn.execute(
@@ -311,6 +313,8 @@ impl GroupStorage for MdkSqliteStorage {
                     params![group_id.as_slice()],
                 )
                 .map_err(into_group_err)?;
+                #[cfg(mdk_verif)]
+                crate::verif_hooks::tick("relays:after-delete");
 
                 for relay_url in &relays {
                     conn.execute(
